@@ -47,6 +47,9 @@ pub struct RtCase {
     pub placements: Vec<Placement>,
     pub matrix_fancy_seed: u64,
     pub texts: Vec<String>,
+    /// line terminator of the CSV and matrix texts: "\n" or "\r\n"
+    #[serde(default)]
+    pub crlf: bool,
 }
 
 pub struct RoundTripSim;
@@ -94,8 +97,17 @@ fn enrich(rng: &mut Rng, rec: &mut WorldRecords) {
         .max(0) as usize
         + 1;
     if rng.chance(1, 2) {
-        let nl = used_max + rng.below(4);
-        let nr = used_max + rng.below(4);
+        let mut nl = used_max + rng.below(4);
+        let mut nr = used_max + rng.below(4);
+        // one dimension across the 8-bit boundaries now and then (cell offsets beyond 64 Ki bytes as well)
+        if rng.chance(1, 12) {
+            let big = [127usize, 128, 129, 255, 256, 257][rng.below(6)];
+            if rng.chance(1, 2) {
+                nl = nl.max(big);
+            } else {
+                nr = nr.max(big);
+            }
+        }
         let mut costs = Vec::with_capacity(nl * nr);
         for _ in 0..nl * nr {
             costs.push(match rng.below(12) {
@@ -271,6 +283,50 @@ fn enrich(rng: &mut Rng, rec: &mut WorldRecords) {
             }
         }
     }
+    // word ids and section offsets beyond 16 bits: a lexicon of about 2^16 plain words (rare: such a run costs a second)
+    if rng.chance(1, 300) {
+        let k = [65530usize, 65536, 65540, 70000][rng.below(4)];
+        let proto = {
+            let mut e = rec.system.entries[0].clone();
+            e.dic_form = None;
+            e.split_a.clear();
+            e.split_b.clear();
+            e.word_structure.clear();
+            e.split_type = "A".into();
+            e.escape = false;
+            e.synonyms.clear();
+            e
+        };
+        let have = rec.system.entries.len();
+        for i in 0..k.saturating_sub(have) {
+            let mut e = proto.clone();
+            e.surface = format!("大{:x}", i);
+            e.headword = e.surface.clone();
+            e.reading = if i % 3 == 0 { "ダイ".to_string() } else { e.surface.clone() };
+            e.norm = e.surface.clone();
+            rec.system.entries.push(e);
+        }
+    }
+    // part-of-speech ids across the 7/8-bit boundaries: many words with a part of speech of their own
+    if rng.chance(1, 20) {
+        let k = [120usize, 127, 128, 129, 250, 255, 256, 257][rng.below(8)];
+        for i in 0..k {
+            let mut e = rec.system.entries[0].clone();
+            e.surface = format!("詞{}", i);
+            e.headword = e.surface.clone();
+            e.reading = "シ".to_string();
+            e.norm = e.surface.clone();
+            e.pos = [format!("品{}", i), "*".into(), "*".into(), "*".into(), "*".into(), format!("活{}", i % 7)];
+            e.dic_form = None;
+            e.split_a.clear();
+            e.split_b.clear();
+            e.word_structure.clear();
+            e.split_type = "A".into();
+            e.escape = false;
+            e.synonyms.clear();
+            rec.system.entries.push(e);
+        }
+    }
     for u in rec.users.iter_mut() {
         // word structure of user words may name user words too
         for e in u.entries.iter_mut() {
@@ -366,10 +422,13 @@ impl Engine for RoundTripSim {
         for _ in 0..3 {
             texts.push(crate::world::gen_text(&mut rng, &spec.keys));
         }
-        let desc = match rng.below(4) {
+        let desc = match rng.below(8) {
             0 => String::new(),
             1 => "x".repeat(256),
             2 => "説明 description".to_string(),
+            3 => format!("a{}", "東".repeat(85)), // 256 bytes, 86 characters
+            4 => "𠮟".repeat(64),               // 256 bytes, 64 characters, 128 UTF-16 units
+            5 => "東".repeat(85),               // 255 bytes
             _ => "d".repeat(rng.below(256)),
         };
         RtCase {
@@ -386,6 +445,7 @@ impl Engine for RoundTripSim {
             placements,
             matrix_fancy_seed: rng.next_u64(),
             texts,
+            crlf: rng.chance(1, 6),
         }
     }
 
@@ -743,8 +803,12 @@ fn snapshot(dict: &Arc<JapaneseDictionary>, texts: &[String]) -> Vec<String> {
 
 pub fn execute(case: &RtCase, stats: &mut Stats, work: &Path) -> Option<Violation> {
     let rec = &case.rec;
-    let matrix_text = rec.matrix.render(&mut Rng::new(case.matrix_fancy_seed), true);
-    let sys_csv = rec.system.render(None);
+    let eol = |t: String| if case.crlf { t.replace('\n', "\r\n") } else { t };
+    let matrix_text = eol(rec.matrix.render(&mut Rng::new(case.matrix_fancy_seed), true));
+    let sys_csv = eol(rec.system.render(None));
+    if case.crlf {
+        stats.inc("inputs.crlf");
+    }
     let mut srng = Rng::new(case.sink_seed);
     let mut digest = fnv1a(b"roundtrip");
 
@@ -800,7 +864,7 @@ pub fn execute(case: &RtCase, stats: &mut Stats, work: &Path) -> Option<Violatio
         let sys_arc = Arc::new(sys_bytes.clone());
         let mut users = vec![];
         for (ui, u) in rec.users.iter().enumerate() {
-            let csv = u.render(Some(&rec.system));
+            let csv = eol(u.render(Some(&rec.system)));
             let plan = if k == 0 { None } else { Some(transient_plan(&mut srng, 1500)) };
             let r = compile_on_thread(
                 Some(sys_arc.clone()),
